@@ -8,7 +8,7 @@ Confirmation, in ONE scratch worktree /tmp/wt-confirm (removed at the end):
 Usage: tools/confirm_seed.py <name> [...]"""
 import os, sys, json, subprocess, shutil, re
 ROOT = os.path.dirname(os.path.dirname(os.path.abspath(__file__)))
-WT = "/tmp/wt-confirm"
+WT = os.environ.get("CONFIRM_WT", "/tmp/wt-confirm")
 ENV = dict(os.environ, RUSTUP_TOOLCHAIN="stable-x86_64-unknown-linux-gnu", CARGO_NET_OFFLINE="true")
 def sh(cmd, cwd=None): return subprocess.run(cmd, shell=True, cwd=cwd, env=ENV, stdout=subprocess.PIPE, stderr=subprocess.STDOUT, text=True)
 def reset(): sh(f"git -C {WT} checkout -- . && git -C {WT} clean -fdq -e target")
